@@ -3,7 +3,7 @@
   Property statements only.  `parse` = `parser::parse` (TZif bytes → zone), `from_tz_string` =
   `TransitionRule::from_tz_string`; results are `ok` / `err` / `panic` (`M.Tz.P`).
 -/
-import Chrono.Proofs.TzParseL
+import Chrono.Proofs.TzEncL
 import Chrono.Proofs.TzSamples
 
 namespace Chrono.Props.C16
@@ -73,24 +73,86 @@ theorem rejects_footer_colon_nul (footer : List Nat) (v : Version)
     (h : (trimWs footer).head? = some 58 ∨ 0 ∈ trimWs footer) : parseFooter footer v = .err :=
   footer_colon_nul' footer v h
 
+/-- every proper prefix of an ACCEPTED file that cuts inside a header or a data block — up to and
+including the exact end of the last data block — is rejected; for a version-1 file (`footerOf` is
+empty) that is every proper prefix.  `footerOf bytes` is what the reader takes as the footer. -/
+theorem rejects_truncated_blocks (bytes : List Nat) (z : Zone) (h : parse bytes = .ok z) (k : Nat)
+    (hk : k < bytes.length) (hcut : k + (footerOf bytes).length ≤ bytes.length) :
+    parse (bytes.take k) = .err :=
+  rejects_truncated_blocks' bytes z h k hk hcut
+
+/-- a cut inside the footer of an accepted file is rejected too, with exactly one exception: the cut
+right after the footer's first newline (the prefix then ends in an empty footer `"\n"`, which is
+well-formed).  Hypothesis: the footer has no newline between its first and last byte (true of every
+footer a conforming writer emits). -/
+theorem rejects_truncated_footer (bytes : List Nat) (z : Zone) (h : parse bytes = .ok z) (k : Nat)
+    (hk : k < bytes.length) (hin : bytes.length < k + (footerOf bytes).length)
+    (hne : k + (footerOf bytes).length ≠ bytes.length + 1)
+    (hnl : ∀ j, 0 < j → j + 1 < (footerOf bytes).length → (footerOf bytes)[j]? ≠ some 10) :
+    parse (bytes.take k) = .err :=
+  rejects_truncated_footer' bytes z h k hk hin hne hnl
+
+/-- for files written by the specification's writer the footer the reader sees is `\n<footer>\n`
+(nothing for version 1), so the two theorems above speak about the cut points of the written layout -/
+theorem written_footer (f : TzFile) (hs1 : BlockShape f.v1) (hs2 : BlockShape f.v2) :
+    (f.version = .V1 → footerOf (encodeTzif f) = [])
+      ∧ (f.version ≠ .V1 → footerOf (encodeTzif f) = 10 :: (f.footer ++ [10])) :=
+  ⟨fun h => footerOf_enc_v1 f h hs1, fun h => footerOf_enc_v2 f h hs1 hs2⟩
+
 /-! ### well-formed data is accepted and read back exactly -/
 
-/-- PARTIAL (general statement: `parse (encodeTzif f) = ok (absBlock …)` for every well-formed `f`).
-Proved here by kernel evaluation for three concrete files written by the specification's writer:
-a version-1 file, a version-2 file with a `std offset dst,start,end` footer consistent with its last
-transition, a version-3 file whose footer uses the extensions (negative and >24 h rule times).
-Missing: the induction over arbitrary blocks; the harness compares the general statement on the
-implementation for thousands of generated files per run (oracle "written"). -/
-theorem tzif_roundtrip_partial :
+/-- the canonical text of EVERY well-formed rule reads back as that rule: both forms (`std offset`
+and `std offset dst offset,start/time,end/time`), bare and `<quoted>` designations, `Jn` / `n` /
+`Mm.w.d` days, offsets up to ±24:59:59, rule times `0…24:59:59` without and `±167:59:59` with the
+RFC 8536 extensions (`RuleOk ext r` carries the flag) -/
+theorem tz_roundtrip (r : Rule) (ext : Bool) (h : RuleOk ext r) :
+    from_tz_string (renderTz r) ext = .ok r :=
+  tz_roundtrip' r ext h
+
+/-- version 1: the file written for a block is read back as exactly that block's transitions, types
+(designations resolved) and leap seconds.  Hypotheses: counts fit the header (`BlockShape`), every
+value fits its field and every designation index is legal (`BlockVals`), and the zone passes
+`TimeZone::validate` (sorted transitions, indices in range, leap-second constraints). -/
+theorem tzif_roundtrip_v1 (f : TzFile) (hver : f.version = .V1) (hs : BlockShape f.v1)
+    (hv : BlockVals .V1 4 f.v1) (hval : validate (absBlock f.v1 none) = .ok ()) :
+    parse (encodeTzif f) = .ok (absBlock f.v1 none) :=
+  tzif_roundtrip_v1' f hver hs hv hval
+
+/-- versions 2 and 3: whatever the 32-bit block holds, the file is read back as exactly the 64-bit
+block and the footer's rule (`none` for an empty footer; the extensions only in version 3).  The
+remaining hypothesis `validate … = ok ()` is the reader's own consistency requirement on the zone
+(sorted transitions, indices in range, leap-second table, and the rule agreeing with the last
+transition — the latter is lookup semantics, property C05). -/
+theorem tzif_roundtrip_v2 (f : TzFile) (hver : f.version ≠ .V1) (hs1 : BlockShape f.v1)
+    (hs2 : BlockShape f.v2) (hv : BlockVals f.version 8 f.v2) (rule : Option Rule)
+    (hfoot : FooterOk f.version f.footer rule) (hval : validate (absBlock f.v2 rule) = .ok ()) :
+    parse (encodeTzif f) = .ok (absBlock f.v2 rule) :=
+  tzif_roundtrip_v2' f hver hs1 hs2 hv rule hfoot hval
+
+/-- when the zone has no rule or no transitions, `validate` asks for nothing beyond the spec-level
+validity: a type, strictly increasing in-range transitions, and the leap-second table constraints -/
+theorem validate_of_valid (z : Zone) (h0 : z.types ≠ []) (h1 : SortedStrict z.transitions)
+    (h2 : ∀ t ∈ z.transitions, t.idx < z.types.length) (h3 : checkLeaps z.leaps = true)
+    (h4 : z.rule = none ∨ z.transitions = []) : validate z = .ok () :=
+  validate_ok_of z h0 h1 h2 h3 h4
+
+/-- non-vacuity (kernel evaluation): three concrete written files are read back exactly — v1 with
+leap seconds and indicators, v2 with a POSIX footer consistent with its last transition, v3 with an
+extension footer -/
+example :
     parse (encodeTzif sampleV1) = .ok (absBlock sampleV1.v1 none)
       ∧ parse (encodeTzif sampleV2) = .ok (absBlock sampleV2.v2 (some sampleRule2))
       ∧ parse (encodeTzif sampleV3) = .ok (absBlock sampleV3.v2 (some sampleRule3)) :=
   tzif_roundtrip_samples
 
-/-- PARTIAL (general statement: every proper prefix of a written file is rejected, except the one
-that ends right after the footer's first newline).  Proved here for *every* cut point of the three
-sample files by kernel evaluation. -/
-theorem rejects_truncated_partial :
+/-- non-vacuity: the hypotheses of `tzif_roundtrip_v2` hold for `sampleV2` with the canonical footer -/
+example : parse (encodeTzif { sampleV2 with footer := renderTz sampleRule2 })
+    = .ok (absBlock sampleV2.v2 (some sampleRule2)) :=
+  tzif_roundtrip_v2 { sampleV2 with footer := renderTz sampleRule2 } (by decide) sampleV2_shape1
+    sampleV2_shape2 sampleV2_vals _ (Or.inr ⟨sampleRule2, rfl, rfl, by decide⟩) (by decide +kernel)
+
+/-- non-vacuity: every cut point of the three sample files (kernel evaluation) -/
+example :
     (∀ k, k < (encodeTzif sampleV1).length → parse ((encodeTzif sampleV1).take k) = .err)
       ∧ (∀ k, k < (encodeTzif sampleV2).length → k ≠ footerStart sampleV2 + 1 →
           parse ((encodeTzif sampleV2).take k) = .err)
@@ -98,13 +160,8 @@ theorem rejects_truncated_partial :
           parse ((encodeTzif sampleV3).take k) = .err) :=
   rejects_truncated_samples
 
-/-- PARTIAL (general statement: `from_tz_string (renderTz r) ext = ok r` for every `RuleOk ext r`).
-Proved here by kernel evaluation for a family of rules covering both forms, quoted and bare names,
-all three day forms at their range ends, negative / zero / 24:59:59 offsets, and the extreme rule
-times with and without extensions.  Missing: the decimal render/scan induction; the harness
-compares `renderTz` with its own renderer and checks the read-back on the implementation. -/
-theorem tz_roundtrip_partial :
-    ∀ p ∈ sampleRules, RuleOk p.1 p.2 ∧ from_tz_string (renderTz p.2) p.1 = .ok p.2 :=
+/-- non-vacuity: `RuleOk` is met by 15 rules spanning both forms and all range ends -/
+example : ∀ p ∈ sampleRules, RuleOk p.1 p.2 ∧ from_tz_string (renderTz p.2) p.1 = .ok p.2 :=
   tz_roundtrip_samples
 
 /-- malformed rule texts are refused (each line is one class the property names) -/
